@@ -347,8 +347,8 @@ def gen_very_long(rng):
     """Thousands of vertices (a densely sampled arc / spiral / noisy trend line, as a plotted curve or a
     digitised drawing is): anything that works through a long list in blocks, windows or with a size
     threshold meets its seams here."""
-    n = rng.choice((4097, 4098, 5000, 8193, 9000, 12000, 20000))
-    style = rng.randrange(3)
+    n = rng.choice((4097, 4098, 5000, 8193, 8193, 9000, 9000, 12000, 12000, 20000, 20000))
+    style = rng.choice((0, 0, 1, 2))
     pts = []
     if style == 0:
         r = rng.uniform(50, 500)
@@ -364,7 +364,7 @@ def gen_very_long(rng):
             y += rng.gauss(0.002, 0.01)
             pts.append([i * 0.05, y + 3 * math.sin(i / 700.0)])
         sag = 0.03
-    tol = sag * rng.choice((0.5, 1.0, 2.0, 4.0))
+    tol = sag * rng.choice((1.0, 2.0, 4.0))
     return ["very long path (4097..20000 vertices)", "tolerance comparable to the deviations"], pts, tol
 
 
@@ -511,7 +511,7 @@ def run(ctx):
     install(ctx)
     rng = ctx.rng
     n = ctx.budget(5_000, 90_000)
-    every = max(1, n // ctx.budget(10, 20))      # a fixed number of very long paths, spread over the run
+    every = max(1, n // ctx.budget(16, 24))      # a fixed number of very long paths, spread over the run
     for _i in range(n):
         if not ctx.alive():
             break
@@ -568,7 +568,7 @@ def run(ctx):
                 "outcome:some vertices deleted", "outcome:nothing deleted"):
         ctx.need(cls, 50)
     ctx.need("spike about one tolerance long, path doubles back (distance to the chord END decides)", 200)
-    ctx.need("very long path (4097..20000 vertices)", 8)
+    ctx.need("very long path (4097..20000 vertices)", 12)
     ctx.need("function graph: x strictly increasing, steep swings (sorted input)", 150)
     ctx.need("cluster straddles the coordinate axes", 150)
     ctx.need("cluster away from the axes", 150)
